@@ -649,6 +649,14 @@ func checkQueues(queue *QueueConfig, level int) error {
 		return err
 	}
 
+	// the resources of a child template are only used when a dynamic queue is created: make sure they can be parsed
+	if _, err = resources.NewResourceFromConf(queue.ChildTemplate.Resources.Max); err != nil {
+		return fmt.Errorf("invalid max resource in the child template of queue %s: %w", queue.Name, err)
+	}
+	if _, err = resources.NewResourceFromConf(queue.ChildTemplate.Resources.Guaranteed); err != nil {
+		return fmt.Errorf("invalid guaranteed resource in the child template of queue %s: %w", queue.Name, err)
+	}
+
 	// check this level for name compliance and uniqueness
 	queueMap := make(map[string]bool)
 	for _, child := range queue.Queues {
